@@ -45,18 +45,21 @@ func (rmap *Records) Keys() []string {
 
 // SetRecord sets the specified record into the records.
 func (rmap *Records) SetRecord(record *Record) error {
+	verifYield("record.set", record.Key)
 	rmap.Store(record.Key, record)
 	return nil
 }
 
 // HasRecord returns true if the database has the specified key record, otherwise false.
 func (rmap *Records) HasRecord(key string) bool {
+	verifYield("record.has", key)
 	_, ok := rmap.Load(key)
 	return ok
 }
 
 // GetRecord gets a record with the specified key.
 func (rmap *Records) GetRecord(key string) (*Record, bool) {
+	verifYield("record.get", key)
 	v, ok := rmap.Load(key)
 	if !ok {
 		return nil, false
@@ -67,6 +70,7 @@ func (rmap *Records) GetRecord(key string) (*Record, bool) {
 
 // RemoveRecord removes a record with the specified key.
 func (rmap *Records) RemoveRecord(key string) error {
+	verifYield("record.remove", key)
 	if _, ok := rmap.Load(key); !ok {
 		return fmt.Errorf("%w : %s", ErrNotFound, key)
 	}
